@@ -18,9 +18,11 @@ from .common import ROOT, WORK, Check
 # property module -> (Lean modules, noOOB / index-range theorems)
 KERNELS = {
     "C01": (["Props.C01"], ["Ibl.decode1_feasible", "Ibl.decode2_feasible", "Ibl.packing_values_fit_dtype"]),
+    "C02": (["Props.C02"], ["BinObj.noOOB", "BinObj.noOOB_inSpace", "BinObj.oob_iff"]),
     "C05": (["Props.C05"], ["Tsp.tourLen?_noOOB"]),
     "C06": (["Props.C06"], ["TspEa.rev_if_not_worse_noOOB", "TspEa.ea_noOOB", "TspEa.rev_if_h_not_worse_noOOB",
                             "TspEa.fea_noOOB", "TspEa.fea_h_index_in_range"]),
+    "C07": (["Props.C07"], ["TtpErrors.countErrors_noOOB"]),
     "C08": (["Props.C08"], ["TtpLength.planLength?_noOOB"]),
     "C09": (["Props.C09"], ["Qap.qapEval_noOOB"]),
     "C15": (["Props.C15"], ["GameEnc.mapGames_noOOB"]),
